@@ -25,20 +25,26 @@ CLAIMS = {
     note=TRUST + "The bodies parallel_execute_inner / replay_uncommitted_suffix are stubs (they are the only code that touches outcomes/state); SC atomics.",
     design="5/C14"),
  "C16": dict(
-    text="One inductive step with concurrency inside, on the real TxDependency code (next/add/remove/commit/key_tx, MIR -> C): from an "
-         "arbitrary state satisfying a stated representation invariant, every pair (thorough: triples) of scheduler roles runs "
+    text="Refinement + induction. Refinement: from any invariant graph state the real Scheduler::execute_task (ghost executor: Ok / Err, any blocker set) "
+         "leaves graph, cursor, statuses and state locks exactly as one of the scripted finishing roles does (unblocked success = remove + hand-off; "
+         "otherwise wait for some predecessor / re-queue / own commit barrier). Induction: one step with concurrency inside, on the real TxDependency code (next/add/remove/commit/key_tx) and the real "
+         "Scheduler::execution_task (status dispatch of every cursor claim / direct hand-off on a real Scheduler's tx_states; MIR -> C): from an "
+         "arbitrary state satisfying a stated representation invariant, every role alone and 16 pairs (thorough: 7 more pairs, 5 triples, n=4) of scheduler roles run "
          "concurrently under all interleavings and must re-establish the invariant (live reverse edge, blocker live, cursor reaches every "
          "claimable tx, no stale release, barrier only below the committed prefix, lock order); a sequential harness shows invariant => "
          "every transaction completes (no orphan). n=3 (thorough n=4).",
-    note=TRUST + "The per-transaction status/lock of scheduler.rs is a ghost in these kernels (the composition with the real status "
-         "machine is decided in C02/C05). Blocked lock acquisition is an assume; lock-order assertions stand in for deadlock freedom.",
+    note=TRUST + "The finishing actions of executors / validators (what execute_task / validate do with the graph, then the status publication under "
+         "the state lock) are scripted roles over the real TxDependency calls; the ghost phase is tied to the real status field. Pairs SN, SS, NN, XS and "
+         "triples BBS, SSB, BBN got no verdict within an hour each and are not registered. Blocked lock acquisition is an assume; lock-order "
+         "assertions stand in for deadlock freedom.",
     design="5/C16"),
  "C17": dict(
     text="Bounded model checking of the real WaitSlot (register/notify/wait_while, MIR -> C) with a parker that has NO timeout: a lost "
          "wake-up is a reachable assertion failure. Waiter loop vs publishing notifier, stale notifier (incl. before registration), two "
          "publications, and the real commit-loop predicate with the real cancel() and finality notification (all interleavings, <=3 wait rounds); "
          "producer side on the real run_finality_loop: every finality publication is followed by a commit notification before the loop sleeps or "
-         "returns, for every batch shape (n=3).",
+         "returns, for every batch shape (n=3); producer side of the finality wake-up on the real next -> validate: a coordinator pass (ghost) that "
+         "parked on head k at any visible operation of the validator is notified by the validation that publishes k (n=3, context bound A|B|A).",
     note=TRUST + "std parker modelled as one token per thread (unpark-before-park makes park return); OnceLock set/get atomic; SC.",
     design="5/C17"),
  "C04": dict(
@@ -58,8 +64,12 @@ CLAIMS = {
          "stated invariant, each role alone and the pairs validation||finality, execution||finality (second role atomic at every conflicting "
          "visible operation of the first: context bound A|B|A) re-establish the invariant, and whenever finality hands out a transaction its "
          "recorded read version is the latest non-estimate entry of its predecessors -- a speculative result computed from state a predecessor "
-         "changed afterwards is never finalised. Commit order / exactly-once / exact prefix of the commit loop: C04 h2.",
-    note=TRUST + "Abstraction: every transaction reads and writes one location; the executor is a ghost doing IncarnationDb's read-latest-below/"
+         "changed afterwards is never finalised. A separate kernel runs the real execute_task over TWO locations with arbitrary previous/new write "
+         "sets: a location the previous incarnation had not written (also a same-size move) sends every later transaction back through validation, and a "
+         "Conflict attempt always rewinds its successors; the real validate over two locations retracts a failed incarnation whatever its write set "
+         "(estimate marks + exactly one Beneficiary::invalidate) and draws its logical timestamp before its first multi-version-memory lookup. "
+         "Commit order / exactly-once / exact prefix of the commit loop: C04 h2.",
+    note=TRUST + "Abstraction (inductive steps): every transaction reads and writes one location; the executor is a ghost doing IncarnationDb's read-latest-below/"
          "publish for it; re-executions with unchanged write sets start from the Executing state of a first incarnation only. A counterexample "
          "from a pre-state no history reaches would mean the invariant is too weak (none found). Pairs that split both roles, the pairs "
          "V||R, and n>3 are outside the claim. The three finality-loop body statements are harness glue around the real lock_finality_candidate.",
@@ -86,7 +96,8 @@ CLAIMS = {
     text="The mechanism lemmas of parallel == in-order execution that a solver reaches on the real code: read resolution to the latest "
          "preceding writer else backing state with exact version recording (storage / basic / code), what a finished incarnation publishes, "
          "publish->read round trips, read-set validation against version and estimate flag, estimate marking and rewinds, timestamp fencing "
-         "and 'no stale result is finalised' as inductive steps from arbitrary invariant states (C02 kernels). Ordered commit: C03/C04.",
+         "and 'no stale result is finalised' as inductive steps from arbitrary invariant states, rewind of validation whenever a re-execution's "
+         "write set gains a location (two-location kernel on the real execute_task) (C02 kernels). Ordered commit: C03/C04.",
     note=TRUST + IDB + "NOT decided (outside this technique's reach, see DESIGN.md): equality with stock revm on real transactions -- the revm "
          "interpreter/journal, real ResultAndState, the bundle of a real block, the hardfork matrix -- and the end-to-end composition of the "
          "lemmas over whole schedules (the protocol harness P of the design was not built).",
@@ -97,7 +108,8 @@ CLAIMS = {
          "result is committed iff the check is off or the nonce equals the nonce in COMMITTED state (and not both u64::MAX); otherwise the "
          "transaction is left to sequential fallback and nothing is applied; faults carry the transaction index. Plus the real sequential "
          "suffix replay (Skipped carries revm's InvalidTransaction unchanged, later transactions still run) and the real commit loop (a "
-         "mismatch at the head requests fallback with an exact committed prefix).",
+         "mismatch at the head requests fallback with an exact committed prefix), and the replay's pre-check reject_nonce_overflow: it reports "
+         "NonceOverflowInTransaction iff nonce checking is on and BOTH the tx nonce and the sender's state nonce are u64::MAX, otherwise revm's own reason stands.",
     note=TRUST + "revm's validate_* decides which transactions are protocol-invalid: it is the oracle's definition and outside the claim. "
          "2 abstract addresses, 8-bit balances, full 64-bit nonces; ParallelStateCommit::{basic_ref, commit} are ghosts (commit-side state: C10).",
     design="5/C03"),
@@ -109,11 +121,14 @@ CLAIMS = {
          "folds the deferred reward once into the COMMITTED account with checked add, materialises an absent account, keeps the other fields; "
          "the beneficiary history (history.rs) from ANY 3-transaction entry vector: a read = nearest snapshot or anchor plus every later reward "
          "oldest-first with per-step checked add, fails with the first estimate, records every contributing (writer, incarnation); validation "
-         "compares the whole chain; record only for a newer incarnation, invalidate only for the same one.",
+         "compares the whole chain; record only for a newer incarnation, invalidate only for the same one; the real IncarnationDb::basic on the "
+         "fee recipient over a real Beneficiary with any 3-entry history returns exactly that resolution, records a Beneficiary read version with "
+         "the whole origin chain, and on an estimate blocks the incarnation (flag + blocker, absent account, nothing recorded, no read of the "
+         "mutable committed cache); the scheduler side of invalidation: the real validate calls Beneficiary::invalidate exactly once for every "
+         "validation ending in Conflict, also for an incarnation with an empty write set.",
     note=TRUST + "Gas quantities/prices bounded to 6 bits in the apply kernel (the 128-bit multiplier is intractable beyond that), 8-bit balances "
          "in the commit and history kernels, sequential history semantics only (RwLock modelled as an exclusive lock; racing record / invalidate / scan "
-         "on different entries are not explored). NOT decided: revm's touch / materialisation semantics inside the journal; IncarnationDb's "
-         "beneficiary read path that calls the history (resolve_before -> read set).",
+         "on different entries are not explored). NOT decided: revm's touch / materialisation semantics inside the journal.",
     design="5/C07"),
  "C10": dict(
     text="Bounded model checking of ParallelState's read path and commit-side storage glue on the real code (ParallelStateView::db_storage, "
@@ -149,7 +164,7 @@ CLAIMS = {
          "recipient for CREATE); balance_before_entry inverts every forward-applied pair of balance entries; the per-account suffix lookup "
          "returns the entry of the first own transaction strictly after txid.",
     note=TRUST + "Kani 0.68 (CBMC back end) with exact stand-ins for two x86 carry intrinsics used by ruint. NOT decided: the journal scan "
-         "delegated_debits_since as a whole (revm Journal internals), build_schedule's saturating sums over TxEnv::max_balance_spending, the "
+         "delegated_debits_since as a whole (revm Journal internals; a seeded change there -- last instead of first debit, seed C13-2 -- is NOT detected), build_schedule's saturating sums over TxEnv::max_balance_spending, the "
          "revert / refund / reimbursement call sequence of enforce_reserve, and the end-to-end funding guarantee over real EVM runs.",
     design="5/C13"),
  "C11": dict(
@@ -159,14 +174,16 @@ CLAIMS = {
          "exactly one journal call, the journal-aware one for the method (so the access passes IncarnationDb's read tracking); database errors "
          "become recorded fatal faults. And GrevmExecutor::execute_incarnation's lifecycle: every attempt, successful or failed, finalizes "
          "the revm journal exactly once before publishing / discarding, so a discarded or retried attempt leaves nothing in the reused EVM.",
-    note=TRUST + "NOT decided: the to_alloy adapter closure (Alloy / revm precompile types), gas charged once, call-frame revert semantics of "
+    note=TRUST + "NOT decided: the to_alloy adapter closure (Alloy / revm precompile types; a seeded change there -- a recorded database fault no longer "
+         "overrides an implementation's own error, seed C04-2 -- is NOT detected), gas charged once, call-frame revert semantics of "
          "facade writes (revm journal), conflict detection of facade accesses beyond 'they go through the journal' (then C01's read kernels apply).",
     design="5/C11"),
  "C05": dict(
     text="Safety lemmas of termination on the real code, within bounds (no unbounded liveness): no lost notification for the WaitSlot "
          "protocol with a parker that has no timeout (C17 kernels); no orphaned transaction -- from any invariant state of the dependency "
          "graph every unfinished transaction completes, every role re-establishes the invariant, committing k-1 releases k parked behind "
-         "its commit boundary, an erroring attempt that does not abort is claimable again (C16 / C04 kernels); with the abort flag set "
+         "its commit boundary, an erroring attempt that does not abort is claimable again, a duplicate claim of an already executed blocker "
+         "(real Scheduler::execution_task) releases its dependents (C16 / C04 kernels); with the abort flag set "
          "next() hands out and claims nothing and the commit loop returns at once.",
     note=TRUST + "NOT decided: termination of schedules longer than the bounds; the panic path (CancelOnPanic, resume_unwind: needs MIR "
          "unwind edges); the full composition real finality loop || real commit loop (experimental tier, not decided by CBMC within hours; "
@@ -175,7 +192,8 @@ CLAIMS = {
  "C06": dict(
     text="What a solver reaches of configuration independence, on the real code: the sequential replay closure and the parallel "
          "executor both query the reserve planner with the GLOBAL transaction index, install the transaction before the handler runs and "
-         "commit / publish only successful outcomes; every hash-set / hash-map iteration in the kernels of C02, C08, C13, C16 is in a "
+         "commit / publish only successful outcomes; the loop feeding the replay closure (execute_sequential_suffix) calls it with consecutive "
+         "global indices from ANY start boundary and the block's own transaction at that index; every hash-set / hash-map iteration in the kernels of C02, C08, C13, C16 is in a "
          "solver-chosen order and their assertions hold for every order (publish_writes, dependency release, reserve scan, write-set scans).",
     note=TRUST + "NOT decided: path selection by configuration only (parallel_execute_inner's MIR is dominated by thread::scope / spawn "
          "plumbing the translator does not cover), equality of two real EVM runs under different worker counts / policies (no encodable "
